@@ -15,6 +15,11 @@ def run(tier, seed, replay=None):
     # impl -> spec over the entire domain (both tiers: the sweep is cheap)
     trace = os.path.join(wd, "trace.ndjson")
     info = harness(["c17", "--out", trace, "--seed", seed, "--random", 100000 if tier == "thorough" else 20000], timeout=600)
+    if info.get("hang"):
+        # a conversion did not return: nothing else of this run can be trusted, report it and stop
+        rep.evaluations = 1
+        rep.violation("conversion of a date did not return within 20 s (the sweep stops here)", info["hang"], {})
+        return rep.finish()
     n = info["events"]
     events = read_trace(trace)
     bad, st, tr, matched = validate_trace("HijriTrace", "HijriTrace.cfg", trace, n, heap="8g", timeout=1500)
